@@ -45,6 +45,13 @@ THEOREMS = [
     "Nix.C11.C11_refused_unchanged",
     "Nix.C11.C11_existing_kept",
     "Nix.C11.C11_readonly_path",
+    "Nix.C11.C11_create_header_fresh",
+    "Nix.C11.C11_create_header_keeps_id",
+    "Nix.C11.C11_write_implies_read",
+    "Nix.C11.C11_fresh_reopens",
+    "Nix.C11.C11_rw_then_ro",
+    "Nix.C11.C11_default_decision",
+    "Nix.C11.C11_changes_only",
 ]
 ASSUMPTIONS = [
     "nixio has no write guard of its own: that libhdf5 refuses every write through a handle opened ACC_RDONLY is "
@@ -1070,6 +1077,41 @@ def run_hist(ctx, disk, events, path=None, digest=False):
     return res
 
 
+def run_create_header(ctx, hd, fid):
+    """File._create_header() on an HDF5 file whose root carries the attributes of `hd`; util.create_id -> fid"""
+    import h5py
+    import numpy as np
+    import nixio
+    import nixio.util as U
+    from nixio.hdf5.h5group import H5Group
+    path = ctx.tmpfile("hdr-%d.h5" % ctx.rng.getrandbits(48))
+    h = h5py.File(path, "w")
+    saved = U.create_id
+    try:
+        if hd["format"] is not None:
+            h.attrs["format"] = hd["format"]
+        if hd["version"] is not None:
+            h.attrs["version"] = np.array(hd["version"], dtype=np.int32)
+        if hd["id"] is not None:
+            h.attrs["id"] = hd["id"]
+        obj = object.__new__(nixio.File)
+        obj._h5file = h
+        obj._root = H5Group(h, "/")
+        U.create_id = lambda: fid
+        try:
+            obj._create_header()
+        except Exception as e:
+            return {"err": classify(e)}
+        a = h.attrs
+        ver = a.get("version")
+        return {"ok": {"format": _decode(a.get("format")), "version": None if ver is None else [int(x) for x in ver],
+                       "id": _decode(a.get("id"))}}
+    finally:
+        U.create_id = saved
+        h.close()
+        os.remove(path)
+
+
 def run_impl(ctx, case, path=None):
     from nixio import file as F
     from nixio import util as U
@@ -1093,6 +1135,8 @@ def run_impl(ctx, case, path=None):
         if op == "check":
             F.File._check_header(_Stub(case[2]), case[1])
             return {"ok": None}
+        if op == "create_header":
+            return run_create_header(ctx, case[1], case[2])
         if op == "hist":
             digest = bool(case[1]) and any(kv[0] == ["#h5"] for kv in case[1].get("content", []))
             return run_hist(ctx, case[1], case[2], path=path, digest=digest)
@@ -1242,6 +1286,12 @@ def gen_cases(ctx):
             for tag in (tags if (v in odd or rng.random() < 0.15) else ["nix", "nix", rng.choice(tags)]):
                 i = rng.choice(GOOD_IDS + BAD_IDS + [VALID_ID] * 6)
                 add("check", ["check", m, {"format": tag, "version": v, "id": i}])
+
+    # --- _create_header on roots that already carry attributes --------------------------------
+    for fmt in (None, "nix", "hdf", ""):
+        for ver in (None, [], [0], [1], list(lib), [1, 2], [0, 0, 0]):
+            for idv in (None, "", VALID_ID, "xx"):
+                add("create_header", ["create_header", {"format": fmt, "version": ver, "id": idv}, fid()])
 
     # --- real files: one open per file ------------------------------------------------------
     def one_open(kind, disk, mode):
